@@ -129,7 +129,7 @@ var epochOffsetNs = new(big.Int).Mul(big.NewInt(62135596800), big.NewInt(1000000
 
 // WFViolations evaluates the clauses of OG.C16.WF on the real catalogue, independently of the
 // Lean evaluator (which re-evaluates them on the dump): names of violated clauses in the
-// fixed order sorted, disjoint, aligned, ids, counters, refs, default.
+// fixed order sorted, disjoint, aligned, ids, counters, refs, default, users, ptview.
 func WFViolations(d *meta.Data) []string {
 	var out []string
 	bad := map[string]bool{}
@@ -233,7 +233,50 @@ func WFViolations(d *meta.Data) []string {
 			}
 		}
 	}
-	for _, k := range []string{"sorted", "disjoint", "aligned", "ids", "counters", "refs", "default"} {
+	// users: names unique, at most one admin, every privilege names an existing database
+	names := map[string]bool{}
+	admins := 0
+	for _, u := range d.Users {
+		if names[u.Name] {
+			bad["users"] = true
+		}
+		names[u.Name] = true
+		if u.Admin {
+			admins++
+		}
+		for db := range u.Privileges {
+			if _, ok := d.Databases[db]; !ok {
+				bad["users"] = true
+			}
+		}
+	}
+	if admins > 1 {
+		bad["users"] = true
+	}
+	// ptview: ClusterPtNum partitions per view, numbered in order, owned by existing data nodes;
+	// at least PtNumPerNode partitions per writer node
+	writers := 0
+	nodeIDs := map[uint64]bool{}
+	for _, n := range d.DataNodes {
+		nodeIDs[n.ID] = true
+		if n.Role == "writer" || n.Role == "" {
+			writers++
+		}
+	}
+	if uint64(d.PtNumPerNode)*uint64(writers) > uint64(d.ClusterPtNum) {
+		bad["ptview"] = true
+	}
+	for _, v := range d.PtView {
+		if uint32(len(v)) != d.ClusterPtNum {
+			bad["ptview"] = true
+		}
+		for i, p := range v {
+			if p.PtId != uint32(i) || !nodeIDs[p.Owner.NodeID] {
+				bad["ptview"] = true
+			}
+		}
+	}
+	for _, k := range []string{"sorted", "disjoint", "aligned", "ids", "counters", "refs", "default", "users", "ptview"} {
 		if bad[k] {
 			out = append(out, k)
 		}
